@@ -114,8 +114,75 @@ def run(ctx):
     groups = {}
     for v in core.parse_printed_json(res, tag="REJECT"):
         groups.setdefault(f"ipsc/{v['why']}", []).append(samples[v["idx"]])
+    mmdvm_phase(ctx)
     for key, items in sorted(groups.items()):
         ctx.violation(key, f"{key}: {len(items)} frames, first {bytes(items[0]['frame']).hex()}", {"count": len(items), "first_hex": [bytes(x["frame"]).hex() for x in items[:3]]})
+
+
+def mmdvm_phase(ctx):
+    """growth beyond the statement (spec/MMDVM.tla): Homebrew DMRD frames decoded by Burst.from_mmdvm"""
+    core.setup_repo_path()
+    import random
+    from harness.drivers.c01 import make_pdu
+    from okdmr.dmrlib.etsi.layer2.burst import Burst
+    from okdmr.kaitai.homebrew.mmdvm2020 import Mmdvm2020
+    rng = random.Random(ctx.seed + 9)
+    samples = []
+    kinds = ["CSBK/other", "DH/U", "VLC", "TLC", "R12/u", "R34/u", "R1/u"]
+    for k in range(300 if ctx.quick else 5000):
+        r = rng.random()
+        cc = rng.randrange(16)
+        if r < 0.5:
+            pdu, dt, _ = make_pdu(rng, rng.choice(kinds))
+            burst = gen.assemble_data_burst(pdu, dt, cc, rng.choice(gen.DATA_SYNCS))
+            ft = rng.choice([2, 2, 2, 0, 1, 3])
+        elif r < 0.8:
+            burst = gen.voice_sync_burst(rng) if rng.random() < 0.4 else gen.voice_emb_burst(rng, colour_code=cc, lcss=rng.randrange(4))
+            ft = rng.choice([0, 1, 0, 1, 2])
+        else:
+            # a data / control burst that carries embedded signalling instead of a SYNC pattern (reverse channel): only the frame type says so
+            pdu, dt, _ = make_pdu(rng, "CSBK/other")
+            b = bytearray(gen.assemble_data_burst(pdu, dt, cc, gen.DATA_SYNCS[0]))
+            v = gen.voice_emb_burst(rng, colour_code=cc, lcss=0)
+            full = int.from_bytes(bytes(b), "big")
+            centre = (int.from_bytes(v, "big") >> 108) & ((1 << 48) - 1)
+            full = (full & ~(((1 << 48) - 1) << 108)) | (centre << 108)
+            burst = full.to_bytes(33, "big")
+            ft = 2
+        ident = lambda: rng.choice([0, 1, 2 ** 24 - 1, rng.randrange(1 << 24), rng.randrange(1 << 16) << 8])
+        bits = (rng.getrandbits(1) << 7) | (rng.getrandbits(1) << 6) | (ft << 4) | rng.randrange(16)
+        f = (b"DMRD" + bytes([rng.choice([0, 1, 255, rng.randrange(256)])]) + ident().to_bytes(3, "big") + ident().to_bytes(3, "big")
+             + rng.getrandbits(32).to_bytes(4, "big") + bytes([bits]) + rng.choice([0, 1, 2 ** 32 - 1, rng.getrandbits(32)]).to_bytes(4, "big")
+             + bytes(burst) + gen.rbytes(rng, rng.choice([0, 1, 2])))
+        o = {"frame": list(f), "err": "", "src": -1, "dst": -1, "timeslot": 0, "seq": -1, "stream": [0, 0], "octets": [], "centre": "",
+             "is_vocoder": False, "has_emb": False, "has_slot_type": False, "is_start": False}
+        try:
+            with warnings.catch_warnings():
+                warnings.simplefilter("ignore")
+                b = Burst.from_mmdvm(Mmdvm2020.from_bytes(f).command_data)
+            sn = int.from_bytes(b.stream_no, "big") if isinstance(b.stream_no, (bytes, bytearray)) else int(b.stream_no)
+            o.update(src=int(b.source_radio_id), dst=int(b._target_radio_id), timeslot=int(b.timeslot), seq=int(b.sequence_no),
+                     stream=[sn >> 16, sn & 0xFFFF], octets=list(b.full_bits.tobytes()), centre=b.sync_or_embedded_signalling.name,
+                     is_vocoder=bool(b.is_vocoder), has_emb=bool(b.has_emb), has_slot_type=bool(b.has_slot_type), is_start=bool(b.is_voice_superframe_start))
+        except Exception as ex:  # noqa
+            o["err"] = type(ex).__name__
+        samples.append(o)
+        ctx.count(core.digest(["mmdvm", list(f)]))
+    path = os.path.join(ctx.rundir, "c13_mmdvm.json")
+    json.dump({"samples": samples}, open(path, "w"))
+    res = core.run_tlc(ctx, "MC_MMDVM", "MC_MMDVM.cfg", env={"DATA_FILE": path}, timeout=900, jvm=("-Xss64m",))
+    if not res.ok or res.distinct < len(samples):
+        raise core.MachineryError(f"TLC did not decode all DMRD frames ({res.distinct} < {len(samples)})")
+    ctx.note("mmdvm_frames", len(samples))
+    seen = {}
+    for v in core.parse_printed_json(res, tag="DRIFT"):
+        seen[v["why"]] = seen.get(v["why"], 0) + 1
+    for why, n_ in sorted(seen.items()):
+        if why.startswith("classification-ignores"):
+            ctx.outside(f"Burst.from_mmdvm: {why.split(' (')[0]}: the comparison mmdvm.frame_type == 2 is between an enumeration member and an integer and never true, "
+                        f"so every burst is announced as a vocoder burst; only a SYNC pattern makes it a data burst ({why.split(' (')[1]}")
+        else:
+            ctx.model_drift(f"MMDVM: {why} ({n_} frames)")
 
 
 def replay(ctx, rec):
